@@ -299,7 +299,7 @@ class C14(runner.Check):
         technique="Lean 4 proof (mutual structural induction over the state tree, dict-regrouping lemma, dirty-flag "
                   "invariant) + differential correspondence + Python property oracle + behavioural differential")
 
-    streams = (('mixed', (16, 70), (64, 500)), ('clean', (16, 35), (32, 300)))
+    streams = (('mixed', (16, 250), (64, 800)), ('clean', (16, 120), (32, 600)))
 
     def explore(self, tier, seed):
         payloads = []
